@@ -374,6 +374,12 @@ class Consumer(object):
 
         def _commit_and_stop(result):
             """Commit the current offsets (if needed) and stop the consumer"""
+            if self._stopping or self._start_d is None:
+                # stop() got in first (it cancelled what we were waiting
+                # for): there is nothing left to commit or to stop.
+                if isinstance(result, Failure):
+                    return _handle_shutdown_commit_failure(result)
+                return _handle_shutdown_commit_success(None)
             if not self.consumer_group:  # No consumer group, no committing
                 return _handle_shutdown_commit_success(None)
 
